@@ -233,9 +233,7 @@ func (c *collector) Collect(ch chan<- prometheus.Metric) {
 				continue
 			}
 
-			if help != "" {
-				m.Description = help
-			}
+			m.Description = help
 
 			switch v := m.Data.(type) {
 			case metricdata.Histogram[int64]:
@@ -584,6 +582,10 @@ func (c *collector) scopeInfo(scope instrumentation.Scope) (prometheus.Metric, e
 	return scopeInfo, nil
 }
 
+// validateMetrics reports whether the metric has to be dropped (its type
+// conflicts with the family already registered under name) and the help text
+// to expose it with: the help of the first metric seen for the family, even
+// if that is empty, so that all metrics of a family agree.
 func (c *collector) validateMetrics(name, description string, metricType *dto.MetricType) (drop bool, help string) {
 	c.mu.Lock()
 	defer c.mu.Unlock()
@@ -596,7 +598,7 @@ func (c *collector) validateMetrics(name, description string, metricType *dto.Me
 			Help: proto.String(description),
 			Type: metricType,
 		}
-		return false, ""
+		return false, description
 	}
 
 	if emf.GetType() != *metricType {
@@ -619,7 +621,7 @@ func (c *collector) validateMetrics(name, description string, metricType *dto.Me
 		return false, emf.GetHelp()
 	}
 
-	return false, ""
+	return false, description
 }
 
 func addExemplars[N int64 | float64](m prometheus.Metric, exemplars []metricdata.Exemplar[N]) prometheus.Metric {
